@@ -119,6 +119,88 @@ def collect_unsafe_coverage(tier, seed):
     return obs, {"unsafe_blocks_in_corpus_expansions": sites, "modules": len(obs)}
 
 
+R_PREFIX = {
+    "C10": ("R:closure:", "R:legal:", "R:keep:"),
+    "C09": ("R:keep:", "R:keepmode:", "R:auto:", "R:mode:"),
+    "C06": ("R:auto:iter", "R:mode:", "R:keepmode:iter"),
+    "C07": ("R:mode:range", "R:closure:range"),
+}
+
+
+def collect_R(pid, tier):
+    r = artifacts.get_r(tier)
+    obs = []
+    meta = {"cache_hit": r.get("cache_hit"), "layer_wall_s": r.get("wall_s", 0), "kani_summary": r.get("kani_summary"),
+            "configurations": "all 2^17 feature subsets x all mode values x both shapes x variant counts 1..65534 x 5 repr sizes (symbolic, loop-free)",
+            "uses_cells": len(r.get("uses", {}))}
+    if r.get("error"):
+        obs.append(Ob("R/harness", "undecided", "kani+cbmc", r["error"]))
+        return obs, meta
+    pre = R_PREFIX.get(pid, ())
+    seen = set()
+    for kind, desc in r.get("expected", []):
+        if kind == "assert" and desc.startswith(pre):
+            seen.add(desc)
+            st = r["checks"].get(desc)
+            if st == "SUCCESS":
+                obs.append(Ob("R/" + desc, "ok", "kani+cbmc", sample={"assertion": desc}))
+            elif st == "FAILURE":
+                obs.append(Ob("R/" + desc, "failed", "kani+cbmc", "Kani refutes %s on the real Features::resolve over the symbolic configuration space" % desc))
+            else:
+                obs.append(Ob("R/" + desc, "undecided", "kani+cbmc", "assertion missing from Kani output (status %s)" % st))
+    for desc, st in sorted(r["checks"].items()):
+        if desc.startswith(pre) and desc not in seen:
+            if st == "SUCCESS":
+                obs.append(Ob("R/" + desc, "ok", "kani+cbmc", sample={"assertion": desc}))
+            elif st == "FAILURE":
+                obs.append(Ob("R/" + desc, "failed", "kani+cbmc", "Kani refutes %s on the real Features::resolve over the symbolic configuration space" % desc))
+            else:
+                obs.append(Ob("R/" + desc, "undecided", "kani+cbmc", "status %s" % st))
+    if pid == "C10":
+        # vacuity: every cell condition must be reachable at the end of resolve
+        for desc, st in sorted(r["covers"].items()):
+            if st != "SATISFIED":
+                obs.append(Ob("R/" + desc, "undecided", "kani+cbmc", "cover not satisfied (%s): the cell's closure assertions would be vacuous" % st))
+            else:
+                obs.append(Ob("R/" + desc, "ok", "kani+cbmc"))
+        for f in r.get("other_failures", []):
+            obs.append(Ob("R/kani-builtin/%s" % f[0], "failed", "kani+cbmc", "%s at %s" % (f[1], f[2])))
+    return obs, meta
+
+
+G_FUNCS = {
+    "C01": ["g_parse_runs"], "C05": ["g_parse_runs"], "C03": ["g_range_table"], "C07": ["g_range_table"],
+    "C17": ["lemma_canonical_order", "sort_site"], "C18": ["lemma_canonical_order", "sort_site"],
+}
+
+
+def collect_G(pid, tier):
+    r = artifacts.get_g(tier)
+    obs = []
+    meta = {"cache_hit": r.get("cache_hit"), "layer_wall_s": r.get("wall_s", 0), "slices": r.get("slices"), "quote_templates": r.get("templates"),
+            "assumption_scan": r.get("assumptions")}
+    if r.get("problems") or r.get("error"):
+        obs.append(Ob("G/slices", "undecided", "verus+z3", "; ".join(r.get("problems", [])) + (r.get("error") or "")))
+        return obs, meta
+    canary = r["functions"].get("__vx_canary", {})
+    for name in G_FUNCS.get(pid, []):
+        if name == "sort_site":
+            ok = r.get("sort_site_ok") and r.get("hashmap_insert_checked")
+            obs.append(Ob("G/sort_site", "ok" if ok else "undecided", "vx-structural",
+                          "" if ok else "the collect + sort_by_key(|v| v.0) statements of parse_values were not found verbatim",
+                          sample={"statements": ["values.iter().map(|(k, v)| (*k, v.clone())).collect::<Vec<_>>()", "values.sort_by_key(|v| v.0)"]}))
+            continue
+        f = r["functions"].get(name)
+        if f is None:
+            obs.append(Ob("G/" + name, "undecided", "verus+z3", "function missing from the verus result"))
+            continue
+        st = {"verified": "ok", "failed": "failed", "undecided": "undecided"}[f["status"]]
+        if st == "ok" and canary.get("status") != "failed":
+            st = "undecided"
+        obs.append(Ob("G/" + name, st, "verus+z3", f.get("reason", ""), f.get("time_ms", 0), sample={"function": name, "slice_of": "/repo/src (verbatim)"}))
+    return obs, meta
+
+
 def _i_relevant(pid, prop):
     if prop == pid:
         return True
